@@ -17,6 +17,8 @@ Inductive drain_ev (s : state) (e : event) (s' : state) (t g : nat) (x : tgt) (d
     d_snap d = None ->
     d' = mkD (d_orig d) (d_deadline d) (Some (map fst rs)) false false ->
     (forall r, In r (map fst rs) -> In r (t_inflight x)) -> length rs = length (t_inflight x) ->
+    (forall r h, In (r, h) rs -> h = upgraded s r) ->
+    (forall r, In (r, true) rs -> cancelled s' r = true) ->
     drain_ev s e s' t g x d'
 | DE_deadline d sn :
     goid (e_by e) = g -> e_k e = KDrainDeadline t -> nget (t_drains x) g = Some d ->
@@ -49,7 +51,12 @@ Proof.
   - eapply DE_begin; eauto. congruence.
   - eapply DE_begin; eauto. congruence.
   - eapply DE_begin; eauto. congruence.
-  - eapply DE_snap; eauto; try (apply forallb_mem_In; auto); try (now apply Nat.eqb_eq).
+  - assert (Hfl : forall r h, In (r, h) inflight -> h = upgraded s r)
+      by (match goal with Hf : forallb _ inflight = true |- _ => exact (flags_spec s inflight Hf) end).
+    eapply DE_snap; eauto; try (apply forallb_mem_In; auto); try (now apply Nat.eqb_eq).
+    intros r Hr. norm. apply orb_true_iff. right. apply andb_true_iff. split; [now apply hij_in_In|].
+    pose proof (Hfl _ _ Hr) as Hu. symmetry in Hu. apply upgraded_phase in Hu. destruct Hu as (t' & Hu).
+    unfold phase_of in Hu. destruct (nget (reqs s) r); congruence.
   - eapply DE_deadline; eauto; try (now apply N.leb_le).
   - eapply DE_cancel; eauto. intros r Hr Hfl Hrec. norm.
     apply orb_true_iff. right. apply andb_true_iff. split.
@@ -74,7 +81,7 @@ Proof.
   destruct (step_tgt_back _ _ _ _ _ H Hx') as [[x Hx]|(lb & ts & _ & _ & _ & ->)]; [|destruct Hin].
   assert (Hold : exists p, phase_of s r = Some p /\ past_claim p = true).
   { destruct (step_drain _ _ _ _ _ _ _ _ H Hx Hx' Hin)
-      as [Hs|orig timeout Hg Hk Ho Hn ->|d rs Hg Hk Hd Hsd -> Hsub Hlen|d sn0 Hg Hk Hd Hsd Hle Hc ->|d sn0 Hg Hk Hd Hsd -> Hcr];
+      as [Hs|orig timeout Hg Hk Ho Hn ->|d rs Hg Hk Hd Hsd -> Hsub Hlen Hflg Hcut|d sn0 Hg Hk Hd Hsd Hle Hc ->|d sn0 Hg Hk Hd Hsd -> Hcr];
       cbn [d_snap] in Hsn.
     - eapply HD; eauto.
     - discriminate.
@@ -98,7 +105,7 @@ Proof.
   intros s e s' HB HD HE H t x' g d' Hx' Hin Hc.
   destruct (step_tgt_back _ _ _ _ _ H Hx') as [[x Hx]|(lb & ts & _ & _ & _ & ->)]; [|destruct Hin].
   destruct (step_drain _ _ _ _ _ _ _ _ H Hx Hx' Hin)
-    as [Hs|orig timeout Hg Hk Ho Hn ->|d rs Hg Hk Hd Hsd -> Hsub Hlen|d sn0 Hg Hk Hd Hsd Hle Hc0 ->|d sn0 Hg Hk Hd Hsd -> Hcr];
+    as [Hs|orig timeout Hg Hk Ho Hn ->|d rs Hg Hk Hd Hsd -> Hsub Hlen Hflg Hcut|d sn0 Hg Hk Hd Hsd Hle Hc0 ->|d sn0 Hg Hk Hd Hsd -> Hcr];
     cbn [d_cancelled d_snap] in *; try discriminate.
   - destruct (HE _ _ _ _ Hx Hs Hc) as (sn & Hsn & Hall). exists sn. split; auto.
     intros r Hr. destruct (Hall r Hr) as [Hnf|Hcc].
@@ -170,7 +177,7 @@ Proof.
   intros tr s e s' HF H t x' g d' Hx' Hin.
   destruct (step_tgt_back _ _ _ _ _ H Hx') as [[x Hx]|(lb & ts & _ & _ & _ & ->)]; [|destruct Hin].
   destruct (step_drain _ _ _ _ _ _ _ _ H Hx Hx' Hin)
-    as [Hs|orig timeout Hg Hk Ho Hn ->|d rs Hg Hk Hd Hsd -> Hsub Hlen|d sn0 Hg Hk Hd Hsd Hle Hc0 ->|d sn0 Hg Hk Hd Hsd -> Hcr].
+    as [Hs|orig timeout Hg Hk Ho Hn ->|d rs Hg Hk Hd Hsd -> Hsub Hlen Hflg Hcut|d sn0 Hg Hk Hd Hsd Hle Hc0 ->|d sn0 Hg Hk Hd Hsd -> Hcr].
   - eapply drain_hist_next; eauto.
   - exists tr, e, [], orig, timeout. cbn [d_deadline d_orig d_snap d_deadline_hit]. repeat split; auto; discriminate.
   - apply nget_In in Hd. eapply drain_hist_next; eauto; cbn [d_snap d_deadline_hit].
@@ -274,29 +281,91 @@ Proof.
   apply in_or_app. right. now right.
 Qed.
 
-(** a request becomes cancelled only by "cancel the rest" of a drain that has it
-    in its snapshot, after that drain's deadline = mark time + drain timeout *)
-Lemma c03_grace_lem : forall pre e post s s1 s2 r,
-  run step init (pre ++ e :: post) = Some s ->
-  run step init pre = Some s1 -> step s1 e = Some s2 ->
-  cancelled s1 r = false -> cancelled s2 r = true ->
+(** a request becomes cancelled only (a) by "cancel the rest" of a drain that has it
+    in its snapshot, after that drain's deadline = mark time + drain timeout, or
+    (b) at the snapshot of a drain that lists it as upgraded (its target answered 101) *)
+Definition cut_at_deadline (pre : trace) (e : event) (r : nat) : Prop :=
   exists t p1 eb mid orig timeout es rs ed,
     e_k e = KDrainCancelRest t /\ pre = p1 ++ eb :: mid /\
     e_k eb = KDrainBegin t orig timeout /\ goid (e_by eb) = goid (e_by e) /\
     In es mid /\ e_k es = KDrainSnapshot t rs /\ goid (e_by es) = goid (e_by e) /\ In r (map fst rs) /\
     In ed mid /\ e_k ed = KDrainDeadline t /\ goid (e_by ed) = goid (e_by e) /\
     (e_t eb + timeout <= e_t ed)%N /\ (e_t ed <= e_t e)%N /\ open_in pre t r.
+
+Definition cut_as_upgraded (pre : trace) (e : event) (s1 : state) (r : nat) : Prop :=
+  exists t rs, e_k e = KDrainSnapshot t rs /\ In (r, true) rs /\ open_in pre t r /\
+               phase_of s1 r = Some (PReplied t 101%N).
+
+Lemma c03_grace_lem : forall pre e post s s1 s2 r,
+  run step init (pre ++ e :: post) = Some s ->
+  run step init pre = Some s1 -> step s1 e = Some s2 ->
+  cancelled s1 r = false -> cancelled s2 r = true ->
+  cut_at_deadline pre e r \/ cut_as_upgraded pre e s1 r.
 Proof.
   intros pre e post s s1 s2 r Hrun Ha He Hc Hc'.
-  destruct (step_cancelled_new _ _ _ _ He Hc Hc') as (t & x & d & sn & Hk & Hx & Hd & Hsn & Hhit & Hr & Hfl).
-  destruct (invF_run _ _ Ha _ _ _ _ Hx (nget_In _ _ _ _ Hd))
-    as (p1 & eb & mid & o & tmo & Hpre & Hkb & Hgb & Hdl & _ & _ & Hs & Hh).
-  destruct (Hs sn Hsn) as (es & rs & Hi & Hke & Hg & Hm).
-  destruct (Hh Hhit) as (ed & Hid & Hkd & Hgd & Hle).
-  exists t, p1, eb, mid, o, tmo, es, rs, ed. repeat split; auto; try congruence.
-  - assert (Hin : In ed pre). { rewrite Hpre. apply in_or_app. right. now right. }
-    pose proof (times_run _ _ Ha _ Hin). destruct (step_clock _ _ _ He). lia.
-  - apply (inflight_spec _ _ _ _ r Ha Hx). auto.
+  destruct (step_cancelled_new _ _ _ _ He Hc Hc')
+    as [(t & x & d & sn & Hk & Hx & Hd & Hsn & Hhit & Hr & Hfl)|(t & x & rs & Hk & Hx & Hr & Hfl & Hup)].
+  - left.
+    destruct (invF_run _ _ Ha _ _ _ _ Hx (nget_In _ _ _ _ Hd))
+      as (p1 & eb & mid & o & tmo & Hpre & Hkb & Hgb & Hdl & _ & _ & Hs & Hh).
+    destruct (Hs sn Hsn) as (es & rs & Hi & Hke & Hg & Hm).
+    destruct (Hh Hhit) as (ed & Hid & Hkd & Hgd & Hle).
+    exists t, p1, eb, mid, o, tmo, es, rs, ed. repeat split; auto; try congruence.
+    + assert (Hin : In ed pre). { rewrite Hpre. apply in_or_app. right. now right. }
+      pose proof (times_run _ _ Ha _ Hin). destruct (step_clock _ _ _ He). lia.
+    + apply (inflight_spec _ _ _ _ r Ha Hx). auto.
+  - right. exists t, rs. repeat split; auto.
+    + apply (inflight_spec _ _ _ _ r Ha Hx). auto.
+    + apply upgraded_phase in Hup. destruct Hup as (t' & Hp).
+      destruct (invB_run _ _ Ha _ _ _ Hx Hfl) as (p & Hp' & Ho). rewrite Hp in Hp'. inj_some. cbn in Ho. congruence.
+Qed.
+
+(** upgraded connections are cut as soon as draining begins: at an accepted snapshot the
+    flag of an entry says exactly "the target answered 101", every flagged entry is
+    cancelled in the resulting state, and (snapshot without duplicates) every upgraded
+    request in flight on t is such an entry *)
+Lemma c03_upgraded_lem : forall pre e post s t rs,
+  run step init (pre ++ e :: post) = Some s -> e_k e = KDrainSnapshot t rs ->
+  exists s1 s2 x, run step init pre = Some s1 /\ step s1 e = Some s2 /\ nget (targets s1) t = Some x /\
+    (forall r h, In (r, h) rs -> (h = true <-> exists t', phase_of s1 r = Some (PReplied t' 101%N))) /\
+    (forall r, In (r, true) rs -> cancelled s2 r = true /\ phase_of s1 r = Some (PReplied t 101%N)) /\
+    (NoDup (map fst rs) -> forall r, In r (t_inflight x) -> phase_of s1 r = Some (PReplied t 101%N) ->
+       In (r, true) rs /\ cancelled s2 r = true).
+Proof.
+  intros pre e post s t rs Hrun Hk. destruct (run_app _ _ _ _ _ _ Hrun) as (s1 & s2 & Ha & He & _).
+  destruct (step_KDrainSnapshot _ _ _ _ _ He Hk) as (x & d & Hx & Hd & _ & Hlen & Hsub & Hflg & Hs2).
+  exists s1, s2, x. repeat split; auto.
+  - intros ->. apply upgraded_phase. symmetry. eauto.
+  - intros Hp. apply upgraded_phase in Hp. rewrite (Hflg _ _ H). auto.
+  - subst s2. norm. apply orb_true_iff. right. apply andb_true_iff. split; [now apply hij_in_In|].
+    pose proof (Hflg _ _ H) as Hu. symmetry in Hu. apply upgraded_phase in Hu. destruct Hu as (t' & Hu).
+    unfold phase_of in Hu. destruct (nget (reqs s1) r); congruence.
+  - pose proof (Hflg _ _ H) as Hu. symmetry in Hu. apply upgraded_phase in Hu. destruct Hu as (t' & Hu).
+    assert (Hin : In r (t_inflight x)) by (apply Hsub; apply in_map_iff; exists (r, true); auto).
+    destruct (invB_run _ _ Ha _ _ _ Hx Hin) as (p & Hp' & Ho). rewrite Hu in Hp'. inj_some. cbn in Ho. congruence.
+  - assert (Hincl : incl (t_inflight x) (map fst rs)).
+    { apply NoDup_length_incl; [assumption | rewrite map_length; lia | intros y Hy; auto]. }
+    apply Hincl in H0. apply in_map_iff in H0. destruct H0 as ([r' h] & Hr' & Hi). cbn in Hr'. subst r'.
+    assert (h = true). { rewrite (Hflg _ _ Hi). apply upgraded_phase. eauto. } subst h. exact Hi.
+  - assert (Hincl : incl (t_inflight x) (map fst rs)).
+    { apply NoDup_length_incl; [assumption | rewrite map_length; lia | intros y Hy; auto]. }
+    apply Hincl in H0. apply in_map_iff in H0. destruct H0 as ([r' h] & Hr' & Hi). cbn in Hr'. subst r'.
+    assert (h = true). { rewrite (Hflg _ _ Hi). apply upgraded_phase. eauto. } subst h.
+    subst s2. norm. apply orb_true_iff. right. apply andb_true_iff. split; [now apply hij_in_In|].
+    unfold phase_of in H1. destruct (nget (reqs s1) r); congruence.
+Qed.
+
+(** only upgraded connections are cut by a snapshot *)
+Lemma c03_only_upgraded_lem : forall pre e post s s1 s2 r t rs,
+  run step init (pre ++ e :: post) = Some s ->
+  run step init pre = Some s1 -> step s1 e = Some s2 -> e_k e = KDrainSnapshot t rs ->
+  cancelled s1 r = false -> cancelled s2 r = true ->
+  In (r, true) rs /\ phase_of s1 r = Some (PReplied t 101%N) /\ open_in pre t r.
+Proof.
+  intros pre e post s s1 s2 r t rs Hrun Ha He Hk Hc Hc'.
+  destruct (c03_grace_lem _ _ _ _ _ _ _ Hrun Ha He Hc Hc') as [(t' & ? & ? & ? & ? & ? & ? & ? & ? & Hk' & _)|(t' & rs' & Hk' & Hi & Ho & Hp)].
+  - congruence.
+  - rewrite Hk in Hk'. inversion Hk'; subst. auto.
 Qed.
 
 (** D11: a second Drain of a target that is already draining returns at once: no drain is opened *)
